@@ -197,10 +197,21 @@ Theorem C11_state_spec_from_interval_1 : forall u kq tail ts k pre b post,
             NoDup (map fst l) /\
             vals k l = [fold_key u k (kbatches kq (length ts)) VNone].
 Proof. exact state_spec_from_start. Qed.
-(* ... and the four library functions are of that kind *)
+(* ... and five of the seven library functions are of that kind; history and idle are not (for them the code's
+   reading -- from the key's first interval -- is the only one claimed) *)
 Theorem C11_library_no_state_like :
-  no_state_like u_sum /\ no_state_like u_last /\ no_state_like u_count /\ no_state_like u_append.
-Proof. exact (conj u_sum_no_state (conj u_last_no_state (conj u_count_no_state u_append_no_state))). Qed.
+  no_state_like u_sum /\ no_state_like u_last /\ no_state_like u_count /\ no_state_like u_append /\
+  no_state_like u_decay.
+Proof.
+  exact (conj u_sum_no_state (conj u_last_no_state (conj u_count_no_state (conj u_append_no_state u_decay_no_state)))).
+Qed.
+Theorem C11_library_not_no_state_like : ~ no_state_like u_history /\ ~ no_state_like u_idle.
+Proof. exact (conj u_history_not_no_state u_idle_not_no_state). Qed.
+(* history, idle and decay change the state of a key that is absent from an interval, so the correspondence run and
+   the oracle can see whether the update function is called with [] for it (state_spec: "[] when absent") *)
+Theorem C11_library_sees_absent_keys :
+  u_history [] (VList []) <> VList [] /\ u_idle [] (VInt 0) <> VInt 0 /\ u_decay [] (VInt 3) <> VInt 3.
+Proof. exact absent_key_changes_state. Qed.
 
 (* what k consumers of the state stream observe: no tick raises; one capture per consumer and tick, all equal to
    the state RDD of that interval (the state advances once per tick however many consumers there are) *)
@@ -317,3 +328,10 @@ Example repaired_7e069b7 :
   let g := prog_count_state (enc_queue [[(0, VInt 1)]]) 1 2 u_sum 1 in
   rdd_of (final g [1; 2]) 6 = RData [VTup [VInt 0; VInt 1]] /\ snd (run_graph g [1; 2]) = [None; None].
 Proof. vm_compute. split; reflexivity. Qed.
+(* a key that is absent for two intervals: the update function is applied to [] in each of them *)
+Example absent_key_is_updated :
+  let kq := [[(0, VInt 4)]; []; []] in
+  state_after u_idle kq 3 = [(0, VInt 2)] /\
+  state_after u_history kq 3 = [(0, VList [VList [VInt 4]; VList []; VList []])] /\
+  state_after u_decay kq 3 = [(0, VInt 1)].
+Proof. vm_compute. repeat split. Qed.
